@@ -23,8 +23,8 @@ from mc.report import Report, ROOT
 MODEL_DIR = os.path.join(ROOT, "models")
 OPID = "fixed-op-id"
 
-SCHEMA = "type Query { a: Int }\ntype Subscription { tick(n: Int, f: In): Tick! }\ntype Tick { tick: Int! }\ninput In { someValue: Int other: String }\n"
-QUERY = "subscription Tick($n: Int, $f: In) { tick(n: $n, f: $f) { tick } }\n"
+SCHEMA = "type Query { a: Int }\ntype Subscription { tick(n: Int, f: In, query: String, data: Int): Tick! }\ntype Tick { tick: Int! }\ninput In { someValue: Int other: String }\n"
+QUERY = "subscription Tick($n: Int, $f: In, $query: String, $data: Int) { tick(n: $n, f: $f, query: $query, data: $data) { tick } }\n"
 D1, D2 = {"tick": {"tick": 1}}, {"tick": {"tick": 2}}
 
 WIRE = {
@@ -299,10 +299,54 @@ def variable_configs(unset, Model):
     """(label, bundled variables, generated kwargs fn, wire variables)"""
     return [
         ("vars_scalar", {"n": 5}, {"n": 5}, {"n": 5}),
+        ("vars_named_like_method_locals", {"query": "python", "data": 9}, {"query": "python", "data": 9}, {"query": "python", "data": 9}),
         ("vars_unset_and_model", lambda u: {"n": u, "f": Model(some_value=3)}, lambda m: {"f": m.In(some_value=3)}, {"f": {"someValue": 3}}),
         ("vars_model_explicit_none", {"n": 0, "f": Model(some_value=None, other="x")}, lambda m: {"n": 0, "f": m.In(some_value=None, other="x")},
          {"n": 0, "f": {"someValue": None, "other": "x"}}),
     ]
+
+
+def replay_sequence(variant, st, loop):
+    """Two subscriptions in a row on ONE client object: the first with per-call extra_headers, the second without.
+    The second connection must be opened with the configured headers only."""
+    mod, mk, decode = variant
+    probs = []
+    cfg1 = {"ws_headers": {"A": "1", "B": "2"}, "ws_origin": None, "call_kwargs": {"extra_headers": {"B": "3", "C": "4"}}}
+    holder = {}
+    old = mod.ws_connect
+    calls = []
+
+    def connect(*a, **k):
+        fc = FakeConnect(st["hist"])
+        calls.append((a, {kk: (dict(vv) if isinstance(vv, dict) else vv) for kk, vv in k.items()}))
+        holder["fc"] = fc
+        return fc(*a, **k)
+    mod.ws_connect = connect
+    try:
+        factory1 = mk(None, cfg1)
+        # reuse the same client object: mk() builds a closure over one client; build the second call from the same closure's client
+        client = factory1.__closure__[0].cell_contents if factory1.__closure__ else None
+        loop.run_until_complete(drive(factory1, None))
+        cfg2 = dict(cfg1, call_kwargs={})
+        if client is not None and hasattr(client, "execute_ws") and not hasattr(client, "tick"):
+            f2 = lambda: client.execute_ws(query=QUERY, operation_name="Tick", variables=None)
+        elif client is not None:
+            f2 = lambda: client.tick()
+        else:
+            return probs
+        loop.run_until_complete(drive(f2, None))
+    finally:
+        mod.ws_connect = old
+    if len(calls) == 2:
+        h2 = calls[1][1].get("extra_headers", calls[1][1].get("additional_headers"))
+        if dict(h2 or {}) != {"A": "1", "B": "2"}:
+            probs.append(("headers_leak_between_calls", f"second subscription opened with headers {h2!r}, configured {{'A': '1', 'B': '2'}}"))
+        h1 = calls[0][1].get("extra_headers", calls[0][1].get("additional_headers"))
+        if dict(h1 or {}) != {"A": "1", "B": "3", "C": "4"}:
+            probs.append(("headers", f"first subscription opened with headers {h1!r}"))
+    else:
+        probs.append(("connect_calls", f"{len(calls)} connect calls for two subscriptions"))
+    return probs
 
 
 def worker(case):
@@ -322,6 +366,10 @@ def worker(case):
             cfgs.append(dict(c, label=l))
     for st in states:
         for vname, v in vs.items():
+            if cfg_mode == "product":
+                res["replays"] += 1
+                for clause, detail in replay_sequence(v, st, loop):
+                    res["problems"].append((clause, vname, "two_calls_one_client", st["hist"], detail))
             for cfg in cfgs:
                 res["replays"] += 1
                 for clause, detail in replay_state(v, st, cfg, loop):
